@@ -214,6 +214,9 @@ def dump_full(res, G, idx, case):
     try:
         tr = res.transmissions()
         out["transmissions"] = [[rs(t), (None if u is None else idx[u]), idx[v]] for (t, u, v) in tr]
+        T = res.transmission_tree()
+        out["tree"] = sorted([rs(d["time"]), idx[u], idx[v]] for u, v, d in T.edges(data=True))
+        out["tree_indeg_max"] = max([d for _, d in T.in_degree()] or [0])
     except Exception as e:
         out["transmissions_err"] = err_enum(e)
     hist = {}
